@@ -215,6 +215,8 @@ def run(ctx, out, tier):
         shared.sh_visit(ctx, out, nm, rule="C13.visit")
     from rules.C18 import check_fresh
     check_fresh(ctx, out, "C13.fresh")
+    from rules.C19 import check_request_gate
+    check_request_gate(ctx, out, "C13.aikey")
     return meta()
 
 
